@@ -569,6 +569,18 @@ def _expand_splices(body):
             out.append(code)
             dropped += d
             continue
+        if s.startswith("//@ absent-fn"):
+            # syntactic obligation: the named functions are NOT defined in the file (e.g. a packet space that must keep
+            # the trait's default frame handlers).  A definition that appears makes the job UNDECIDED ("contract needed").
+            toks = shlex.split(s[len("//@ absent-fn"):])
+            ftext = open(os.path.join(REPO, toks[0])).read()
+            for nm in toks[1].split(","):
+                if find_code(ftext, r"fn\s+" + re.escape(nm) + r"\b"):
+                    raise ExtractError("%s now defines `%s` (it used to inherit the trait default): the override needs a contract of its own" % (toks[0], nm))
+            dropped.append("syntactic obligation checked: %s defines none of %s" % (toks[0], toks[1]))
+            out.append("// absent-fn checked: %s" % toks[0])
+            i += 1
+            continue
         if s.startswith("//@ include-job"):
             if s.split()[2] in INCLUDED:
                 out.append("// (job %s already included)" % s.split()[2])
